@@ -55,6 +55,7 @@ var enumNamePool = []string{"Kind", "Status", "Mode"}
 type randomGen struct {
 	baseNames []string        // per package: base name of its Go import path (nil: pkgN)
 	forceImports bool         // every file imports all earlier files
+	filePkg []int             // package index of every file
 	usedTop map[string]bool // proto package + "." + name
 	t     *simhook.Tape
 	opts  RandomOpts
@@ -163,6 +164,9 @@ func (g *randomGen) genFile(idx, pkg int) {
 		if g.files[j].GetSyntax() == "proto2" {
 			continue
 		}
+		if g.opts.Tag != "" && g.filePkg[j] > pkg {
+			continue // compilable flavour: Go packages must not import each other in a cycle
+		}
 		if g.forceImports || t.Chance("rs.import", 1, 2) {
 			deps = append(deps, j)
 			fd.Dependency = append(fd.Dependency, g.files[j].GetName())
@@ -170,6 +174,7 @@ func (g *randomGen) genFile(idx, pkg int) {
 	}
 	g.deps = append(g.deps, deps)
 	g.files = append(g.files, fd)
+	g.filePkg = append(g.filePkg, pkg)
 
 	nEnums := t.Draw("rs.enums", 3)
 	for i := 0; i < nEnums; i++ {
